@@ -16,6 +16,7 @@ type Clause struct {
 	Text  string
 	Props []string
 	Src   string
+	Pkg   string
 }
 
 type ModLoc struct {
@@ -258,6 +259,7 @@ func (cs *Contracts) loadFile(path string) error {
 			if err != nil {
 				return fail(err)
 			}
+			cl.Pkg = pkg
 			cs.Axioms = append(cs.Axioms, cl)
 		case "requires", "ensures":
 			cl, err := mkClause(rest, src)
